@@ -404,8 +404,8 @@ struct Runner {
                 subs[t]->present = false;
                 opName = "unsubscribe";
             }
-            else if (in(50) && !live.empty()) { int t = live[rng.below(live.size())]; note("mute"); log("mute" + std::to_string(t)); (*subs[t]->handle)->mute(); subs[t]->muted = true; opName = "mute"; }
-            else if (in(40) && !live.empty()) { int t = live[rng.below(live.size())]; note("unmute"); log("unmute" + std::to_string(t)); (*subs[t]->handle)->unmute(); subs[t]->muted = false; opName = "unmute"; }
+            else if (in(50) && !live.empty()) { int t = live[rng.below(live.size())]; note("mute"); log("mute" + std::to_string(t)); (*subs[t]->handle)->mute(); subs[t]->muted = true; opName = "mute"; if (!(*subs[t]->handle)->isMuted()) fail("C06", "handle-state", site, "isMuted() is false right after mute()"); }
+            else if (in(40) && !live.empty()) { int t = live[rng.below(live.size())]; note("unmute"); log("unmute" + std::to_string(t)); (*subs[t]->handle)->unmute(); subs[t]->muted = false; opName = "unmute"; if ((*subs[t]->handle)->isMuted()) fail("C06", "handle-state", site, "isMuted() is true right after unmute()"); }
             else if (in(70) && !live.empty()) { int t = live[rng.below(live.size())]; note("invalidate"); log("inval" + std::to_string(t)); subs[t]->invalidate(); subs[t]->valid = false; opName = "invalidate"; }
             else if (in(structural ? 210 : 110)) { shrink(); opName = ""; }
             if (!gCaseFailed && *opName && (structural || rng.chance(250))) checkStructure(opName, nullptr);
